@@ -4,7 +4,12 @@ import time, fractions, copy, sys
 import z3
 from . import ir as IR
 from . import spec as SP
-from .solve import Quant, discharge
+from .solve import Quant, discharge, subterms as _subterms_list
+
+
+def _subterms(e):
+    return _subterms_list([e])
+
 
 INTS = ('int', 'uint', 'long', 'ulong', 'char')
 RANGE = {'int': (-2 ** 31, 2 ** 31 - 1), 'uint': (0, 2 ** 32 - 1), 'long': (-2 ** 63, 2 ** 63 - 1), 'ulong': (0, 2 ** 64 - 1), 'char': (-128, 127)}
@@ -893,6 +898,22 @@ class Engine:
                 sym, lit = (a, b) if a.v is None else (b, a)
                 return self.streq(sym, lit.v, st)
             if n == 'real': return self.to_real(args[0])
+            if n == 'summary':
+                # summary("Callee", k, args...): the value of the pure callee applied to the k-th lambda of this function (which may
+                # capture only callbacks) and the given scalar arguments -- the term a contract call with that lambda produces
+                if not (isinstance(args[0], Str) and args[0].v and z3.is_int_value(args[1])): raise E2Error('summary("Callee", ordinal, args...) expected')
+                alias = 'lambda:%s:%d' % (self.curkey, args[1].as_long())
+                if alias not in self.db.funcs: raise E2Error('summary: no contract for %s' % alias)
+                lf = self.func(alias)
+                lsp = self.db.funcs[alias]
+                parts = [alias.split(':', 1)[1]]
+                for ct, cn in sorted(lsp.captures, key=lambda c_: c_[1]):
+                    if ct != 'fun': raise E2Error('summary: lambda %s captures a scalar; only callback captures are supported here' % alias)
+                    cbk = (self.cur.callbacks.get(cn) if self.cur is not None else None)
+                    parts.append(cbk['uf'] if cbk else cn)
+                nm = 'pure_%s_%s' % (args[0].v, 'lam<' + '|'.join(parts) + '>')
+                a_ = [self.to_real(v) for v in args[2:]]
+                return self.uf(nm, *([z3.RealSort()] * (len(a_) + 1)))(*a_)
             if n == 'trunc':      # conversion double -> int as in C++ (towards zero), same term as the translated cast
                 v = self.to_real(args[0])
                 if self.cur is not None and self.cur.options.get('prune_real'):
@@ -910,6 +931,10 @@ class Engine:
         raise E2Error('clause expression kind %s' % k)
 
     def apply_uf(self, name, args):
+        ren = getattr(self, 'uf_rename', None)
+        if ren and name in ren:
+            name, extra = ren[name]
+            args = list(args) + list(extra)
         a = [self.to_real(v) if not isinstance(v, Seq) else v.arr for v in args]
         sorts = [v.sort() for v in a] + [z3.RealSort()]
         return self.uf(name, *sorts)(*a)
@@ -1109,6 +1134,7 @@ class Engine:
         for gt, gn in sp.ghosts:
             cs.ghost[gn] = self.fresh_val({'real': 'double', 'double': 'double', 'int': 'int', 'uint': 'uint', 'bool': 'bool', 'seq': 'seq<double>', 'seq2': 'seq<seq<double>>'}.get(gt, gt), 'g.' + gn, cs, constrain=(gt in ('seq', 'seq2')))
             if gn in st.ghost: cs.ghost[gn] = st.ghost[gn]     # ghost arguments are passed by name
+        lam_bind = []
         for p in f.params:
             if p[1] == 'fun' and isinstance(env.get(p[0]), Fun):
                 # the callee's contract names its callback by an uninterpreted function; the actual argument must be the
@@ -1120,16 +1146,48 @@ class Engine:
                 if self.cur is not None:
                     for cn, c2 in self.cur.callbacks.items():
                         mine = c2['uf'] if mine is None else mine
-                if want is not None and (act.lam is not None or (mine is not None and mine != want)):
+                if act.lam is not None and (want is not None or sp.options.get('pure')):
+                    # a lambda is passed: it must have a contract of its own (keyed lambda:<function>:<ordinal>); the callee's
+                    # clauses are instantiated with an uninterpreted function that stands for this lambda with these captures
+                    lam_bind.append((p[0], act, cb))
+                    continue
+                if want is not None and (mine is not None and mine != want):
                     raise E2Error('call %s: the contract names its callback %s but a different function is passed (callback renaming is not supported)' % (f.qual, want))
         gstate = [gn for gt, gn in sp.ghost_state]
         for gn in gstate:
             if gn not in st.env: raise E2Error('call %s: ghost state %s is not declared in the caller' % (f.qual, gn))
             cs.env[gn] = st.env[gn]
         who = 'call %s: ' % f.qual
+        saved_rename = getattr(self, 'uf_rename', None)
+        lam_info = []
+        if lam_bind:
+            self.uf_rename = dict(saved_rename or {})
+            for pname, act, cb in lam_bind:
+                lname, extra, lsp, lf, caps = self.lambda_identity(act, st)
+                env[pname] = Fun(lname, lam=act.lam); env[pname].extra = extra; cs.env[pname] = env[pname]
+                if cb: self.uf_rename[cb['uf']] = (lname, extra)
+                lam_info.append((pname, act, cb, lname, extra, lsp, lf, caps))
         for cl in sp.requires:
             if cl.engines and 'E2' not in cl.engines: continue
             self.check_clause(cl, cs, 'call.requires', what=who)
+        for (pname, act, cb, lname, extra, lsp, lf, caps) in lam_info:
+            # whenever the callee calls its callback (within the callback's precondition) the lambda's own precondition holds
+            ls = cs.clone(); ls.env = dict(cs.env); ls.ghost = dict(cs.ghost)
+            targs = [self.fresh_val(pt, 'cbarg.' + pn, ls) for (pn, pt, br) in lf.params]
+            if cb:
+                bound = {}
+                for an, av in zip(cb['args'], targs): bound[an] = av
+                for cl in cb['requires']: self.assume_clause(cl.expr, ls, bound)
+                if cb['ensures']: raise E2Error('call %s: the callee assumes a postcondition of its callback; passing a lambda there is not supported' % f.qual)
+            le = st.clone(); le.pc = ls.pc; le.pc_int = ls.pc_int; le.env = {}; le.scope = None; le.ghost = dict(st.ghost)
+            for (pn, pt, br), tv in zip(lf.params, targs): le.env[pn] = tv
+            for nm, v in caps.items(): le.env['$' + nm] = v
+            keep_ = self.uf_rename; self.uf_rename = self.lambda_rename(lsp, caps)
+            try:
+                for cl in lsp.requires:
+                    self.check_clause(cl, le, 'lambda.requires', what=who + 'the lambda passed as %s is called within its precondition: ' % pname)
+            finally:
+                self.uf_rename = keep_
         if sp.valid_iff is not None:
             if self.mode != 'reject':
                 for c in self.clause_conjuncts(sp.valid_iff.expr):
@@ -1167,13 +1225,38 @@ class Engine:
                 if isinstance(v, (Seq, Rec, Str)): raise E2Error('pure summary of %s: non-scalar parameter %s' % (f.qual, pn))
                 sc.append(self.to_real(v) if not z3.is_bool(v) else z3.If(v, z3.RealVal(1), z3.RealVal(0)))
             funs = [env[pn].uf for (pn, pt, br) in f.params if isinstance(env[pn], Fun)]
+            for (pn, pt, br) in f.params:
+                if isinstance(env[pn], Fun) and getattr(env[pn], 'extra', None): sc += list(env[pn].extra)
             cbn = '_'.join(((self.cur.callbacks.get(pn, {}) or {}).get('uf') or u) for u, pn in zip(funs, [p[0] for p in f.params if isinstance(env[p[0]], Fun)])) if False else '_'.join(funs)
             args = [a for a in sc if a is not None]
             u = self.uf('pure_%s_%s' % (f.name, cbn), *([z3.RealSort()] * len(args) + [res.sort()]))
             cs.assume(res == u(*args))
+        n_pc0 = len(cs.pc)
         for cl in sp.ensures:
             if cl.engines and 'E2' not in cl.engines: continue
             self.assume_clause(cl.expr, cs)
+        for (pname, act, cb, lname, extra, lsp, lf, caps) in lam_info:
+            # what the lambda's contract says about its values, at every application that the callee's postconditions mention
+            apps = {}
+            for h in cs.pc[n_pc0:]:
+                if isinstance(h, Quant): continue
+                for sub in _subterms(h):
+                    if z3.is_app(sub) and sub.decl().name() == lname and sub.num_args() == len(lf.params) + len(extra): apps[sub.get_id()] = sub
+            for app in apps.values():
+                le = st.clone(); le.pc = cs.pc; le.pc_int = cs.pc_int; le.env = {}; le.scope = None; le.ghost = dict(st.ghost)
+                for i_, (pn, pt, br) in enumerate(lf.params): le.env[pn] = app.arg(i_)
+                for nm, v in caps.items(): le.env['$' + nm] = v
+                le.env['result'] = app
+                keep_ = self.uf_rename; self.uf_rename = self.lambda_rename(lsp, caps)
+                try:
+                    pre = [v for cl in lsp.requires for v in self.clause_vals(cl.expr, le) if not isinstance(v, Quant)]
+                    for cl in lsp.ensures:
+                        for v in self.clause_vals(cl.expr, le):
+                            if isinstance(v, Quant): continue
+                            cs.assume(z3.Implies(z3.And(*pre), v) if pre else v)
+                finally:
+                    self.uf_rename = keep_
+        self.uf_rename = saved_rename
         for gn in gstate: st.env[gn] = cs.env[gn]
         for gt, gn in sp.globals: st.env['::' + gn] = cs.env['::' + gn]
         st.pc = cs.pc; st.pc_int = cs.pc_int
@@ -1189,6 +1272,42 @@ class Engine:
         if ctor_self is not None:
             return cs.env.get('self')
         return res
+
+    def fun_name(self, v):
+        """the uninterpreted function a function value stands for in the current contract (callback parameters by their uf name)"""
+        cbk = self.cur.callbacks.get(v.uf) if self.cur is not None else None
+        return cbk['uf'] if cbk else v.uf
+
+    def lambda_rename(self, lsp, caps):
+        """while clauses of a lambda's contract are evaluated, its callback names denote the functions it captured"""
+        ren = {}
+        for cn, cbk in lsp.callbacks.items():
+            v = caps.get(cn)
+            if isinstance(v, Fun): ren[cbk['uf']] = (self.fun_name(v), list(getattr(v, 'extra', None) or []))
+        return ren
+
+    def lambda_identity(self, act, st):
+        """name of the uninterpreted function that stands for a lambda value: its stable key plus the names of the callbacks it
+        captured; the scalars it captured become extra arguments.  Needs a contract for the lambda's call operator."""
+        op, caps = act.lam
+        alias = None
+        for u in self.units:
+            for a_, m_ in getattr(u, 'aliases', {}).items():
+                if m_ == op: alias = a_
+        if alias is None or alias not in self.db.funcs:
+            raise E2Error('a lambda (%s) is passed to a function under contract but has no contract of its own' % (alias or op))
+        lsp = self.db.funcs[alias]; lf = self.func(op)
+        parts = [alias.split(':', 1)[1]]; extra = []
+        for nm in sorted(caps):
+            v = caps[nm]
+            if isinstance(v, Fun):
+                parts.append(self.fun_name(v))
+                if getattr(v, 'extra', None): extra += list(v.extra)
+            elif isinstance(v, Str): parts.append('s[%s]' % (v.v if v.v is not None else v.sym))
+            elif isinstance(v, (Seq, Rec, PySeq, Iter)): raise E2Error('lambda %s captures a non-scalar (%s)' % (alias, nm))
+            elif v is None: continue
+            else: extra.append(self.to_real(v) if not z3.is_bool(v) else z3.If(v, z3.RealVal(1), z3.RealVal(0)))
+        return 'lam<' + '|'.join(parts) + '>', extra, lsp, lf, caps
 
     def check_pure(self, f):
         """syntactic purity: no namespace-scope or static variable is read or written (R16)"""
@@ -1888,6 +2007,7 @@ class Verifier(Engine):
         if fs.options.get('trusted'): raise E2Error('%s has a trusted contract; it is an assumption, not a goal' % key)
         self.view = key.split('~')[1] if '~' in key else None
         key = key.split('~')[0]
+        self.curkey = key
         f = self.func(key)
         modes = ['accept', 'reject'] if fs.exits_iff is not None else ['accept']
         info = {'function': f.qual, 'mangled': key, 'modes': {}, 'rules': f.rules}
@@ -1910,6 +2030,10 @@ class Verifier(Engine):
             for pn, pt, br in f.params:
                 st.env[pn] = self.fresh_val(pt, pn, st)
                 self.vartypes[pn] = pt
+            for ct, cn in fs.captures:
+                tt = {'real': 'double', 'seq': 'seq<double>', 'str': 'string', 'string': 'string'}.get(ct, ct)
+                st.env['$' + cn] = self.fresh_val(tt, 'cap.' + cn, st)
+                self.vartypes['$' + cn] = tt
             for gt, gn in fs.ghosts:
                 t = {'real': 'double', 'double': 'double', 'int': 'int', 'uint': 'uint', 'bool': 'bool', 'long': 'long', 'seq': 'seq<double>', 'seq2': 'seq<seq<double>>'}.get(gt, gt)
                 st.ghost[gn] = self.fresh_val(t, 'g.' + gn, st, constrain=(t != 'int'))
